@@ -172,11 +172,41 @@ class Check:
             with build_lock():
                 for name, text in files.items():
                     self.write_gen(name, text)
+                record_gen_modules(genmod, list(files))
+            self._gens_run = getattr(self, "_gens_run", set()) | {genmod}
             return True
         except Exception as e:  # noqa
+            self._gens_run = getattr(self, "_gens_run", set()) | {genmod}
             self.p_errors.append({"kind": "translator", "theorem": f"gen/{genmod}.py",
                                   "message": "".join(traceback.format_exception_only(type(e), e))[-2000:]})
             return False
+
+    def regen_closure(self, props_file, exes=()):
+        """Regenerate, from the tree under test, every generated module that the property's theorems or drivers import,
+        whichever check owns its translator: a Gen file left behind by a run of ANOTHER check (possibly against another
+        tree) must never decide this one. The module -> translator map is gen/modules.json (kept up to date by run_gen)."""
+        files = [props_file] + [os.path.join(LEAN_DIR, "Driver", e[4:] + ".lean") for e in exes if e.startswith("drv_")]
+        need, seen, todo = set(), set(), [f for f in files if os.path.exists(f)]
+        while todo:
+            f = todo.pop()
+            if f in seen:
+                continue
+            seen.add(f)
+            for m in re.finditer(r"^import\s+((?:AgVerif|Driver)\.[\w.]+)", open(f).read(), re.M):
+                parts = m.group(1).split(".")
+                if parts[:2] == ["AgVerif", "Gen"]:
+                    need.add(parts[2])
+                q = os.path.join(LEAN_DIR, *parts) + ".lean"
+                if os.path.exists(q):
+                    todo.append(q)
+        try:
+            mp = json.load(open(GEN_MODULES))
+        except Exception:
+            mp = {}
+        for g in sorted(need):
+            script = mp.get(g)
+            if script and script not in getattr(self, "_gens_run", set()):
+                self.run_gen(script)
 
     def prove(self, exes=(), modules=None, extra_modules=()):
         """build Props/<prop> (+ driver executables), audit axioms, grep sources.
@@ -191,6 +221,7 @@ class Check:
         names = re.findall(r"^\s*(?:private\s+|protected\s+)?theorem\s+([^\s:({\[]+)", code, re.M)
         self.obligations = [f"{ns}.{n}" if ns else n for n in names]
         targets = [props_mod] + list(extra_modules) + list(exes)
+        self.regen_closure(props_file, exes)
         self.checker_cmd = ("cd lean && lake build " + " ".join(targets) +
                             f" && lake env lean AgVerif/Audit/{prop}.lean   # #print axioms")
         with build_lock():
@@ -425,6 +456,20 @@ class build_lock:
     def __exit__(self, *a):
         fcntl.flock(self.f, fcntl.LOCK_UN)
         self.f.close()
+
+
+GEN_MODULES = os.path.join(VERIF, "gen", "modules.json")
+
+
+def record_gen_modules(script, names):
+    """remember which translator writes which generated module (called under the build lock)"""
+    try:
+        mp = json.load(open(GEN_MODULES))
+    except Exception:
+        mp = {}
+    if any(mp.get(n) != script for n in names):
+        mp.update({n: script for n in names})
+        json.dump(mp, open(GEN_MODULES, "w"), indent=1, sort_keys=True)
 
 
 def lean_closure(files):
